@@ -393,7 +393,7 @@ def dom_replay(prop, tier, seed, res, classes):
 
 def check_C15(tier, seed):
     res = Result("C15", tier, seed, "model_checking")
-    res.coverage["rule"] = ("TLC explores every history of length 3 over {parse (2 documents), new, build, clone of any subtree, drop, take, 12 array operations, 6 object operations, "
+    res.coverage["rule"] = ("TLC explores every history of length 3 over {parse (2 documents), new, build, clone of any subtree, drop, take, 15 array operations, 10 object operations, "
                             "append} on 3 slots, checking that the copy-on-write representation denotes the reference model of vectors and maps in every slot (Refines); every history is "
                             "replayed on real Values (three ways of reaching &mut), comparing results, rejected calls and the full contents of every slot after every step. "
                             "non-trivial = histories containing at least one mutation")
